@@ -4,7 +4,8 @@
 From Coq Require Import Reals List.
 Import ListNotations.
 From PD Require Import Model.Num Model.Spectrum Gen.Gen_spectrum
-  Proofs.SpectrumLists Proofs.SpectrumSF Proofs.SpectrumSmooth Proofs.SpectrumPeak Proofs.SpectrumDFT4 Proofs.C16 Proofs.C17.
+  Proofs.SpectrumLists Proofs.SpectrumSF Proofs.SpectrumSmooth Proofs.SpectrumPeak Proofs.SpectrumDFT4
+  Proofs.SpectrumDFTAlg Proofs.SpectrumDFTMath Proofs.SpectrumDFTCosine Proofs.C16 Proofs.C17 Proofs.SpectrumMathInst.
 Local Open Scope R_scope.
 
 Theorem C17_ls_mean_covariant : forall (F : dft_oracle) shape h x s, 0 < s ->
@@ -116,6 +117,46 @@ Theorem C17_ls_peak_default_refuted :
   exists td s, 0 < td /\ 0 < s /\ ~ ls_default_smoothing (s * td) = ls_default_smoothing td / s.
 Proof. exact ls_peak_default_refuted. Qed.
 Print Assumptions C17_ls_peak_default_refuted.
+
+(* ======================================================================================================
+   The same theorems for the mathematical DFT (Model.Spectrum.dft_math, proved to satisfy dft_spec and dft_cosine):
+   no DFT premise is left; the minimiser premises of the peak method remain. *)
+Theorem C17_dft_math_cosine : dft_cosine dom_math dft_math.
+Proof. exact dft_math_cosine. Qed.
+Print Assumptions C17_dft_math_cosine.
+
+Theorem C17_math_ls_mean_field_inv : forall shape h x, Forall (fun n => (0 < n)%nat) shape -> sumsq shape x <> 0 ->
+  (forall c, c <> 0 -> ls_mean_model dft_math shape h (fun n => c * x n) = ls_mean_model dft_math shape h x) /\
+  (forall s, ls_mean_model dft_math shape h (fun n => x (shift_idx shape s n)) = ls_mean_model dft_math shape h x).
+Proof. exact m_ls_mean_field_inv. Qed.
+Print Assumptions C17_math_ls_mean_field_inv.
+
+Theorem C17_math_ls_peak_field_inv : forall mini shape h x sigma,
+  Forall (fun n => (0 < n)%nat) shape -> sumsq shape x <> 0 ->
+  (forall c, c <> 0 ->
+     ls_peak_model mini dft_math shape h (fun n => c * x n) sigma = ls_peak_model mini dft_math shape h x sigma) /\
+  (forall s,
+     ls_peak_model mini dft_math shape h (fun n => x (shift_idx shape s n)) sigma = ls_peak_model mini dft_math shape h x sigma).
+Proof. exact m_ls_peak_field_inv. Qed.
+Print Assumptions C17_math_ls_peak_field_inv.
+
+Theorem C17_math_plane_wave_peak_bin : forall mini N q A phi c h sigma, minimizer_in_bracket mini ->
+  (1 <= q)%nat -> (4 * q <= N)%nat -> A <> 0 -> 0 < h ->
+  (exists p, argmax_pair (sf_pairs dft_math [N] [h] (cosine_field N q A phi c)) = Some p /\
+             fst p = 2 * PI * INR q / (INR N * h)) /\
+  (forall L, ls_peak_model mini dft_math [N] [h] (cosine_field N q A phi c) sigma = Some L ->
+     exists xk, L = ls_peak xk /\
+                2 * PI * INR q / (INR N * h) / 5 <= xk <= 5 * (2 * PI * INR q / (INR N * h))).
+Proof. exact m_plane_wave_peak_bin. Qed.
+Print Assumptions C17_math_plane_wave_peak_bin.
+
+Theorem C17_math_plane_wave_start_covariant : forall N q A phi c h s,
+  (1 <= q)%nat -> (4 * q <= N)%nat -> A <> 0 -> 0 < h -> 0 < s ->
+  exists p p', argmax_pair (sf_pairs dft_math [N] [h] (cosine_field N q A phi c)) = Some p /\
+               argmax_pair (sf_pairs dft_math [N] [s * h] (cosine_field N q A phi c)) = Some p' /\
+               fst p' = fst p / s.
+Proof. exact m_plane_wave_start_covariant. Qed.
+Print Assumptions C17_math_plane_wave_start_covariant.
 
 Example C17_nonvacuous :
   minimizer_covariant mini_mid /\ [(0, 1)] <> [] /\ Forall (fun b : R * R => fst b < snd b) [(0, 1)] /\
